@@ -15,7 +15,7 @@ from ..symb import Translator, Untranslatable, is_zero
 from ..terms import call_name, canon, cmp_normal, conjuncts, const_num, guard_canon, norm_stmt
 from .c01 import clamp_summary
 from .c08 import _dtype_rule
-from .common import iter_stores, reaching_assignments, self_attr_of, pos
+from .common import deref_canon as _dc11, iter_stores, reaching_assignments, self_attr_of, pos
 
 EXPLANATION = (
     "R1 both directions end in a two-sided clamp: __call__ to the internal box (self.lb, self.ub), inverse_transf to the original box "
@@ -368,7 +368,8 @@ def check(ctx):
         # the log stores on the four bounds precede mu/gamma and use the log mask
         logged = set()
         for t, v, s, k in iter_stores(create.node):
-            if isinstance(t, ast.Subscript) and self_attr_of(t) in ("lb", "ub", "plb", "pub") and canon(t.slice) == logmask and call_name(v) == "np.log" and canon(v.args[0]) == canon(t):
+            if isinstance(t, ast.Subscript) and self_attr_of(t) in ("lb", "ub", "plb", "pub") and _dc11(prog, create, t.slice) == logmask and call_name(v) == "np.log" and v.args and isinstance(v.args[0], ast.Subscript) \
+                    and canon(v.args[0].value) == canon(t.value) and _dc11(prog, create, v.args[0].slice) == logmask:
                 if "mu" in defs and pos(s) < pos(defs["mu"][1]):
                     logged.add(self_attr_of(t))
         ctx.check(logged == {"lb", "ub", "plb", "pub"}, create, create.node, "all four bounds are log-transformed on the log mask before mu/gamma", f"only {sorted(logged)} of the four bounds are log-transformed on the log coordinates before mu/gamma are computed", construct=f"log-transformed bounds {sorted(logged)}")
